@@ -246,7 +246,11 @@ def _add_message(container, prefix, m, used_files, table, locs, path):
 
 
 def _set_http(rule, h):
-    setattr(rule, h["verb"], h["uri"])
+    if h["verb"] == "custom":        # HttpRule.custom { kind, path }: verbs outside get/put/post/delete/patch (HEAD, OPTIONS ...)
+        rule.custom.kind = h.get("kind", "HEAD")
+        rule.custom.path = h["uri"]
+    else:
+        setattr(rule, h["verb"], h["uri"])
     if h.get("body"):
         rule.body = h["body"]
     if h.get("response_body"):
